@@ -13,6 +13,15 @@ CLAIMED = {
  "C01": ("seq", "exploration",
          "Seeded deterministic simulation of build/exit/advance histories under a virtual clock against a bucketised reference window (RefWin) per rule; every decision compared, blocking rule must be one that is really exceeded, plus a model-free window bound at the end. Exploration is the right level: the quantifier is an unbounded space of histories x geometries, sampled with boundary-biased time steps.",
          "DESIGN.md §4 C01", "deterministic simulation: virtual clock + seeded histories vs reference window model", SEQ_NOTE),
+ "C02": ("seq", "exploration",
+         "Seeded deterministic simulation of write/advance/read histories on resource nodes created under generated window geometries (ring 1..20 x 1..1000 ms; servable and unservable read windows) under a virtual clock; every read of every reader (sum, qps, qps_previous, avg_rt, min_rt) compared with the recorded event list; construction accept/refuse compared with an independent predicate. Exploration: unbounded histories x geometries, sampled with boundary-biased steps.",
+         "DESIGN.md §4 C02", "deterministic simulation: virtual clock + seeded event histories vs recorded-event reference", SEQ_NOTE),
+ "C04": ("seq", "exploration",
+         "Seeded deterministic simulation of build/exit/advance histories over several resources, inbound and outbound, with a rule mix of all five families blocking part of the traffic; after every operation the 1 s and 10 s windows and the in-flight count of every resource node and of the global inbound node are compared with a reference account fed with the observed outcomes.",
+         "DESIGN.md §4 C04", "deterministic simulation: virtual clock + seeded histories vs reference accounting model", SEQ_NOTE),
+ "C05": ("seq", "exploration",
+         "Seeded deterministic simulation of build/exit interleavings (PRNG picks which open entry exits) under isolation and hotspot-concurrency rules; each decision compared with reference in-flight counts per resource and per (rule, parameter value); block type and named rule checked.",
+         "DESIGN.md §4 C05", "deterministic simulation: seeded build/exit interleavings vs reference in-flight model", SEQ_NOTE),
 }
 
 PENDING_REASON = "check not built yet in this round (design in DESIGN.md §4); not claimed until it runs"
